@@ -434,4 +434,25 @@ Proof.
   rewrite segmentation_independent; fold seen; rewrite Hw; [reflexivity|cbn; discriminate].
 Qed.
 
+
+(* ---------- no panic without a panicking handler ---------- *)
+Lemma adrain_no_panic : forall f b out,
+  (forall x, looks x <> ABroken) -> (forall x, looks x <> AStop None) ->
+  (forall x n, looks x = AFrame n -> n <= length x -> ahandle (firstn n x) <> None) ->
+  r_status (adrain f b out) <> Panicked.
+Proof.
+  induction f as [|f IH]; intros b out H1 H2 H3; [cbn; discriminate|]. rewrite adrain_S.
+  destruct (looks b) as [| |[e|]|n] eqn:E; cbn [r_status]; try discriminate.
+  - exfalso. exact (H1 b E).
+  - exfalso. exact (H2 b E).
+  - destruct (length b <? n) eqn:En; [cbn [r_status]; discriminate|].
+    destruct (ahandle (firstn n b)) as [w|] eqn:Eh; [apply IH; assumption|].
+    exfalso. apply (H3 b n E); [lia|exact Eh].
+Qed.
+Lemma awhole_no_panic bytes :
+  (forall x, looks x <> ABroken) -> (forall x, looks x <> AStop None) ->
+  (forall x n, looks x = AFrame n -> n <= length x -> ahandle (firstn n x) <> None) ->
+  c_status (awhole bytes) <> Panicked.
+Proof. intros H1 H2 H3. rewrite awhole_eq. cbn zeta. cbn [c_status]. apply adrain_no_panic; assumption. Qed.
+
 End Asm.
